@@ -68,7 +68,7 @@ func (ck *Check) providerBounds(rule string) {
 		}
 		ck.cond(okv, rule, key, ck.P.instrPos(ci), funcID(fn), "PC ⇒ δ ≥ 1 ∧ TargetSize + δ ≤ MaxSize at every call of IncreaseSize that can reach an AWS write", pc.String(), why)
 	}
-	ck.floor(rule, "write-reaching calls in aws IncreaseSize", n, 2)
+	ck.floor(rule, "write-reaching calls in aws IncreaseSize", n, 1)
 }
 
 // ---------------------------------------------------------------------------------------------
@@ -1002,7 +1002,7 @@ func checkC18(ck *Check) {
 		// the returned error is the failing call's error / a fresh error
 		ck.cond(!isNil, "C18.R5", key+"/reported", ck.P.instrPos(r), funcID(fn), "the failure is returned to the caller", rt.String(), "")
 	}
-	ck.floor("C18.R1", "error exits of the attach step", nerr, 3)
+	ck.floor("C18.R1", "error exits of the attach step", nerr, 2)
 	ck.floor("C18.R2", "success exits of the attach step", nok, 1)
 
 	// R3 nothing dropped between CreateFleet and attach
@@ -1561,7 +1561,22 @@ func (ck *Check) belongsShape(rule string) {
 		okv := true
 		var why []string
 		trueRets := 0
+		// library form: return slices.Contains(n.Nodes(), node.Spec.ProviderID)
+		viaLibrary := false
+		if len(fn.Blocks) == 1 {
+			if r, ok := fn.Blocks[0].Instrs[len(fn.Blocks[0].Instrs)-1].(*ssa.Return); ok {
+				rt := ctx.Term(r.Results[0])
+				if rt.Kind == "call" && strings.HasPrefix(rt.Name, "slices.Contains") && len(rt.Args) == 2 &&
+					isCallTo(rt.Args[0], a.AwsNodes) && rt.Args[0].Args[0].Key() == recv.Key() && rt.Args[1].Key() == ck.nodeField(node, "Spec", "ProviderID").Key() {
+					viaLibrary = true
+				}
+			}
+		}
 		for _, b := range fn.Blocks {
+			if viaLibrary {
+				trueRets = 1
+				break
+			}
 			r, ok := b.Instrs[len(b.Instrs)-1].(*ssa.Return)
 			if !ok {
 				continue
@@ -1617,18 +1632,9 @@ func (ck *Check) belongsShape(rule string) {
 			if !ok {
 				continue
 			}
-			pr := sliceProv(r.Results[0])
-			if len(pr.Appends) == 1 && len(pr.Appends[0].Elems) == 1 {
-				ap := pr.Appends[0]
-				l := innermostLoop(fn, ap.Call.Block())
-				et := ctx.Term(ap.Elems[0])
-				if l != nil && l.FullTraversal() && isCallTo(et, a.AwsInstToProv) && et.Args[0].Kind == "elem" {
-					over := et.Args[0].Args[0]
-					body := And(ctx.BlockPC(l.Header), ctx.edgeCond(l.Header, l.Header.Succs[0]))
-					eq, _, _ := Equivalent(ctx.PC(ap.Call), body)
-					if over.Kind == "field" && over.Name == "Instances" && eq {
-						okv = true
-					}
+			if et, over, ok := ck.mapCollect(fn, ctx, r.Results[0]); ok {
+				if isCallTo(et, a.AwsInstToProv) && et.Args[0].Kind == "elem" && et.Args[0].Args[0].Key() == over.Key() && over.Kind == "field" && over.Name == "Instances" {
+					okv = true
 				}
 			}
 		}
@@ -1688,7 +1694,7 @@ func (ck *Check) notInGroupPropagation(rule string) {
 			ck.propagates(rule, key, fr, ctx, call, e, errIdx)
 		}
 	}
-	ck.floor(rule, "calls that can yield *NodeNotInNodeGroup across the frames up to RunForever", total, 9)
+	ck.floor(rule, "calls that can yield *NodeNotInNodeGroup across the frames up to RunForever", total, 4)
 	// main passes RunForever's result to log.Fatal
 	if sp := ck.P.SSAPkg[pkgCmd]; sp != nil {
 		mainFn := sp.Func("main")
@@ -1975,7 +1981,7 @@ func (ck *Check) exitAfterDisposition(rule string) {
 	}
 	ck.Stats[rule+" may-exit call sites on the fleet path"] = nExit
 	ck.Stats[rule+" disposition call sites on the fleet path"] = nDisp
-	ck.floor(rule, "disposition call sites on the fleet path", nDisp, 4)
+	ck.floor(rule, "disposition call sites on the fleet path", nDisp, 3)
 }
 
 // effSite is a write site as seen from the function that plays the structural role: the write call
@@ -2052,4 +2058,67 @@ func (ck *Check) wrapperFaithful(rule string, es effSite) {
 		}
 	}
 	ck.cond(okv, rule, funcID(es.Wrapper)+"/error-returned", ck.P.instrPos(c), funcID(es.Wrapper), "the wrapper returns the write's error unchanged", "", "the failure of "+calleeName(c)+" is swallowed or replaced inside "+funcID(es.Wrapper))
+}
+
+// mapCollect: slice holds e(x) for every element x of a list L, in order, nothing else — built by
+// one unconditional append per iteration of a full range over L starting empty, or by one
+// unconditional indexed store per iteration into a make of len(L). Returns e(elem(L)) and L.
+func (ck *Check) mapCollect(fn *ssa.Function, ctx *Ctx, slice ssa.Value) (*Term, *Term, bool) {
+	pr := sliceProv(slice)
+	uncond := func(l *Loop, in ssa.Instruction) bool {
+		body := And(ctx.BlockPC(l.Header), ctx.edgeCond(l.Header, l.Header.Succs[0]))
+		eq, _, _ := Equivalent(ctx.PC(in), body)
+		return eq
+	}
+	if len(pr.Appends) == 1 && len(pr.Appends[0].Elems) == 1 {
+		for _, r := range pr.Roots {
+			if !makeSliceEmpty(r) {
+				return nil, nil, false
+			}
+		}
+		ap := pr.Appends[0]
+		l := innermostLoop(fn, ap.Call.Block())
+		if l == nil || !l.FullTraversal() || l.Over == nil || !uncond(l, ap.Call) {
+			return nil, nil, false
+		}
+		return ctx.Term(ap.Elems[0]), ctx.Term(l.Over), true
+	}
+	if len(pr.Appends) == 0 && len(pr.Roots) == 1 {
+		ms, ok := pr.Roots[0].(*ssa.MakeSlice)
+		if !ok {
+			return nil, nil, false
+		}
+		lc, isLen := isBuiltinCall(ms.Len, "len")
+		if !isLen {
+			return nil, nil, false
+		}
+		var elem *Term
+		var over *Term
+		stores := 0
+		for _, r := range *ms.Referrers() {
+			ia, ok := r.(*ssa.IndexAddr)
+			if !ok {
+				continue
+			}
+			for _, rr := range *ia.Referrers() {
+				st, ok := rr.(*ssa.Store)
+				if !ok || st.Addr != ssa.Value(ia) {
+					continue
+				}
+				stores++
+				l := innermostLoop(fn, st.Block())
+				if l == nil || !l.FullTraversal() || l.Idx == nil || ia.Index != l.Idx || !uncond(l, st) {
+					return nil, nil, false
+				}
+				if ctx.Term(l.Over).Key() != ctx.Term(lc.Common().Args[0]).Key() {
+					return nil, nil, false
+				}
+				elem, over = ctx.Term(st.Val), ctx.Term(l.Over)
+			}
+		}
+		if stores == 1 && elem != nil {
+			return elem, over, true
+		}
+	}
+	return nil, nil, false
 }
